@@ -1,77 +1,701 @@
 /-
-  C01 — cell-id quadtree: first instalment of the property theorems (hierarchy laws),
-  stated on the bit-level model `S2.CellID` for ALL ids; proved from the bridge lemmas
-  in `S2Proofs/CellIDLemmas.lean`.  (The work package c01 extends this file.)
+  S2Proofs.Properties.C01 — the cell-id algebra of `s2/cellid.go` (model `S2.CellID`):
+  canonical form, hierarchy, children, curve steps.
+
+  Sample cell used in the non-vacuity examples:
+  `5404319552844595200 = 2·2^61 + (2·5+1)·2^56`  (face 2, level 2, curve index 5 on its face).
 -/
-import S2Proofs.CellIDLemmas
+import S2Proofs.CellIDAlgebraAdvance
 open S2 S2.CellID
 namespace S2Proofs.C01
 
-/-- A valid id has a level in 0..30 and `Parent(level)` is the id itself. -/
-theorem valid_level_le (x : CellID) (h : isValid x = true) : level x ≤ 30 := by
-  obtain ⟨k, hk⟩ := (isValid_iff x).mp h
-  rw [hk.level_eq]; exact hk.k_le
+/-! ## Group 1 — canonical form -/
 
-/-- `Parent(j)` of a valid id (j ≤ level) is a valid id of level exactly j that contains it. -/
-theorem parent_valid_level_contains (x : CellID) (j : Nat) (h : isValid x = true) (hj : j ≤ level x) :
-    isValid (parent x j) = true ∧ level (parent x j) = j ∧ contains (parent x j) x = true := by
-  obtain ⟨k, hk⟩ := (isValid_iff x).mp h
-  rw [hk.level_eq] at hj
-  have hp := hk.parent_isCell hj
-  refine ⟨(isValid_iff _).mpr ⟨j, hp⟩, hp.level_eq, ?_⟩
-  exact (hp.contains_iff_parent hk).mpr ⟨hj, rfl⟩
+/-- A word is a valid cell id iff it has a unique decomposition
+    `face·2^61 + (2·c+1)·2^(60−2·level)` with `face < 6`, `level ≤ 30`, `c < 4^level`. -/
+theorem canonical (id : CellID) :
+    isValid id = true ↔ ∃! p : Nat × Nat × Nat, p.1 < 6 ∧ p.2.1 ≤ 30 ∧ p.2.2 < 4^p.2.1 ∧
+      id.toNat = p.1 * 2^61 + (2*p.2.2+1) * 2^(60 - 2*p.2.1) := by
+  rw [isValid_iff]
+  constructor
+  · rintro ⟨k, h⟩
+    obtain ⟨hk, f, c, hf, hc, hx⟩ := (isCell_iff_canonical id k).mp h
+    refine ⟨(f, k, c), ⟨hf, hk, hc, hx⟩, ?_⟩
+    rintro ⟨f', k', c'⟩ ⟨hf', hk', hc', hx'⟩
+    simp only at hf' hk' hc' hx'
+    have h' := isCell_of_canonical hf' hk' hc' hx'
+    have := h.unique h'
+    subst this
+    obtain ⟨e1, e2⟩ := canonical_fc hf hk hc hx
+    obtain ⟨e1', e2'⟩ := canonical_fc hf' hk hc' hx'
+    rw [e1, e2, e1', e2']
+  · rintro ⟨⟨f, k, c⟩, ⟨hf, hk, hc, hx⟩, _⟩
+    exact ⟨k, isCell_of_canonical hf hk hc hx⟩
 
-/-- Containment of valid ids is exactly "the ancestor at the container's level is the container". -/
-theorem contains_iff_ancestor (x y : CellID) (hx : isValid x = true) (hy : isValid y = true) :
-    contains x y = true ↔ level x ≤ level y ∧ parent y (level x) = x := by
-  obtain ⟨k, hk⟩ := (isValid_iff x).mp hx
-  obtain ⟨j, hj⟩ := (isValid_iff y).mp hy
-  rw [hk.level_eq, hj.level_eq]
-  exact hk.contains_iff_parent hj
+example : isValid (5404319552844595200 : CellID) = true := by decide
+example : (5404319552844595200 : CellID).toNat = 2 * 2^61 + (2*5+1) * 2^(60 - 2*2) := by decide
+example : isValid (0 : CellID) = false ∧ isValid sentinel = false ∧
+    isValid (5440348349863559168 : CellID) = false := by decide
 
-/-- Two valid cells are nested or their leaf ranges are disjoint (the quadtree is laminar). -/
-theorem nested_or_disjoint (x y : CellID) (hx : isValid x = true) (hy : isValid y = true) :
-    contains x y = true ∨ contains y x = true ∨
-      (rangeMax x).toNat < (rangeMin y).toNat ∨ (rangeMax y).toNat < (rangeMin x).toNat := by
-  obtain ⟨k, hk⟩ := (isValid_iff x).mp hx
-  obtain ⟨j, hj⟩ := (isValid_iff y).mp hy
-  exact hk.nested_or_disjoint hj
+/-- In canonical form: the word is valid, and `face`, `level`, `pos` read off the components. -/
+theorem canonical_components (id : CellID) (f k c : Nat) (hf : f < 6) (hk : k ≤ 30) (hc : c < 4^k)
+    (h : id.toNat = f * 2^61 + (2*c+1) * 2^(60 - 2*k)) :
+    isValid id = true ∧ face id = f ∧ level id = k ∧ (pos id).toNat = (2*c+1) * 2^(60 - 2*k) := by
+  have hc' := isCell_of_canonical hf hk hc h
+  obtain ⟨e1, _⟩ := canonical_fc hf hk hc h
+  refine ⟨(isValid_iff id).mpr ⟨k, hc'⟩, ?_, hc'.level_eq, ?_⟩
+  · rw [face_toNat, ← e1]
+  · rw [pos_toNat, h]
+    interval_cases k <;> cell_omega
 
-/-- The four children of a valid non-leaf cell are valid, one level deeper, and `Parent` inverts them. -/
-theorem child_valid_parent (x : CellID) (t : Nat) (h : isValid x = true) (hl : level x < 30) (ht : t < 4) :
-    isValid (child x t) = true ∧ level (child x t) = level x + 1 ∧ parent (child x t) (level x) = x := by
-  obtain ⟨k, hk⟩ := (isValid_iff x).mp h
-  rw [hk.level_eq] at hl ⊢
-  have hc := hk.child_isCell hl ht
-  refine ⟨(isValid_iff _).mpr ⟨k + 1, hc⟩, hc.level_eq, ?_⟩
-  have hcont : contains x (child x t) = true := by
-    rw [contains_iff, hk.rangeMin_eq, hk.rangeMax_eq, hk.child_toNat hl ht]
-    obtain ⟨_, hf, hlow⟩ := hk
-    have ht' : t = 0 ∨ t = 1 ∨ t = 2 ∨ t = 3 := by omega
-    rcases ht' with rfl | rfl | rfl | rfl <;> interval_cases k <;> cell_omega
-  exact ((hk.contains_iff_parent hc).mp hcont).2
+example : (2:Nat) < 6 ∧ (2:Nat) ≤ 30 ∧ (5:Nat) < 4^2 ∧
+    (5404319552844595200 : CellID).toNat = 2 * 2^61 + (2*5+1) * 2^(60 - 2*2) := by decide
 
-/-- The children's leaf ranges partition the parent's range in curve order. -/
-theorem children_partition_range (x : CellID) (h : isValid x = true) (hl : level x < 30) :
-    (rangeMin (child x 0)).toNat = (rangeMin x).toNat ∧
-    (rangeMax (child x 0)).toNat + 2 = (rangeMin (child x 1)).toNat ∧
-    (rangeMax (child x 1)).toNat + 2 = (rangeMin (child x 2)).toNat ∧
-    (rangeMax (child x 2)).toNat + 2 = (rangeMin (child x 3)).toNat ∧
-    (rangeMax (child x 3)).toNat = (rangeMax x).toNat := by
-  obtain ⟨k, hk⟩ := (isValid_iff x).mp h
-  rw [hk.level_eq] at hl
-  have c0 := hk.child_isCell hl (t := 0) (by omega)
-  have c1 := hk.child_isCell hl (t := 1) (by omega)
-  have c2 := hk.child_isCell hl (t := 2) (by omega)
-  have c3 := hk.child_isCell hl (t := 3) (by omega)
-  rw [c0.rangeMin_eq, c0.rangeMax_eq, c1.rangeMin_eq, c1.rangeMax_eq, c2.rangeMin_eq, c2.rangeMax_eq,
-      c3.rangeMin_eq, c3.rangeMax_eq, hk.rangeMin_eq, hk.rangeMax_eq,
-      hk.child_toNat hl (t := 0) (by omega), hk.child_toNat hl (t := 1) (by omega),
-      hk.child_toNat hl (t := 2) (by omega), hk.child_toNat hl (t := 3) (by omega)]
-  obtain ⟨_, hf, hlow⟩ := hk
+/-- `FromFacePosLevel(face, pos, level)` of the components of a valid id gives the id back. -/
+theorem fromFacePosLevel_face_pos_level (id : CellID) (h : isValid id = true) :
+    fromFacePosLevel (face id) (pos id) (level id) = id := by
+  obtain ⟨k, hc⟩ := (isValid_iff id).mp h
+  have hp : (pos id).toNat < 2^61 := by rw [pos_toNat]; omega
+  apply UInt64.toNat_inj.mp
+  rw [hc.level_eq, fromFacePosLevel_toNat _ _ _ hc.face_lt6 hp hc.k_le, pos_toNat, face_toNat]
+  obtain ⟨hk, hf, hlow⟩ := hc
   interval_cases k <;> cell_omega
 
--- non-vacuity: face cell 0 and a level-30 leaf are valid
-example : isValid 0x1000000000000000 = true ∧ isValid 0x1000000000000001 = true := by decide
+example : isValid (5404319552844595200 : CellID) = true := by decide
+
+/-- `FromFacePosLevel(f, p, k)` for in-range arguments is the valid level-`k` cell of face `f`
+    whose leaf range contains position `p` (low `61−2k` bits of `p` replaced by `10…0`). -/
+theorem fromFacePosLevel_spec (f : Nat) (p : UInt64) (k : Nat) (hf : f < 6) (hp : p.toNat < 2^61)
+    (hk : k ≤ 30) :
+    isValid (fromFacePosLevel f p k) = true ∧ level (fromFacePosLevel f p k) = k ∧
+      face (fromFacePosLevel f p k) = f ∧
+      (fromFacePosLevel f p k).toNat
+        = f * 2^61 + (p.toNat - p.toNat % 2^(61 - 2*k)) + 2^(60 - 2*k) := by
+  have hc := fromFacePosLevel_isCell f p k hf hp hk
+  refine ⟨(isValid_iff _).mpr ⟨k, hc⟩, hc.level_eq, ?_, fromFacePosLevel_toNat f p k hf hp hk⟩
+  rw [face_toNat, fromFacePosLevel_toNat f p k hf hp hk]
+  interval_cases k <;> cell_omega
+
+example : (3:Nat) < 6 ∧ (1234567890123 : UInt64).toNat < 2^61 ∧ (17:Nat) ≤ 30 := by decide
+
+/-- `FromFace(f)`: the level-0 cell of face `f`. -/
+theorem fromFace_spec (f : Nat) (hf : f < 6) :
+    (fromFace f).toNat = f * 2^61 + 2^60 ∧ isValid (fromFace f) = true ∧ level (fromFace f) = 0 ∧
+      face (fromFace f) = f ∧ fromFace f = fromFacePosLevel f 0 0 := by
+  have hc := fromFace_isCell f hf
+  have e := fromFace_toNat f hf
+  refine ⟨e, (isValid_iff _).mpr ⟨0, hc⟩, hc.level_eq, ?_, ?_⟩
+  · rw [face_toNat, e]; omega
+  · apply UInt64.toNat_inj.mp
+    rw [e, fromFacePosLevel_toNat f 0 0 hf (by decide) (by omega), zero_toNat]
+    omega
+
+example : (4:Nat) < 6 := by decide
+
+/-- The level-0 ancestor of a valid cell is its face cell. -/
+theorem parent_zero_eq_fromFace (id : CellID) (h : isValid id = true) :
+    parent id 0 = fromFace (face id) := by
+  obtain ⟨k, hc⟩ := (isValid_iff id).mp h
+  apply UInt64.toNat_inj.mp
+  rw [parent_toNat id 0 (by omega), fromFace_toNat _ hc.face_lt6, face_toNat]
+  omega
+
+example : isValid (5404319552844595200 : CellID) = true := by decide
+
+/-- `IsFace` ⇔ level 0 (for valid ids). -/
+theorem isFace_iff_level_zero (id : CellID) (h : isValid id = true) :
+    isFace id = true ↔ level id = 0 := by
+  obtain ⟨k, hc⟩ := (isValid_iff id).mp h
+  rw [hc.isFace_eq, hc.level_eq]; simp
+
+example : isValid (fromFace 3) = true ∧ isFace (fromFace 3) = true ∧
+    isFace (5404319552844595200 : CellID) = false := by decide
+
+/-! ## Group 2 — hierarchy -/
+
+/-- The ancestor at level `j ≤ level id` of a valid cell is a valid cell of level `j` on the same face. -/
+theorem parent_spec (id : CellID) (j : Nat) (h : isValid id = true) (hj : j ≤ level id) :
+    isValid (parent id j) = true ∧ level (parent id j) = j ∧ face (parent id j) = face id := by
+  obtain ⟨k, hc⟩ := (isValid_iff id).mp h
+  rw [hc.level_eq] at hj
+  have hp := hc.parent_isCell hj
+  exact ⟨(isValid_iff _).mpr ⟨j, hp⟩, hp.level_eq, hc.parent_face hp.k_le⟩
+
+example : isValid (5404319552844595200 : CellID) = true ∧ 1 ≤ level (5404319552844595200 : CellID) := by
+  decide
+
+/-- The ancestor at its own level is the cell itself. -/
+theorem parent_level_self (id : CellID) (h : isValid id = true) : parent id (level id) = id := by
+  obtain ⟨k, hc⟩ := (isValid_iff id).mp h
+  rw [hc.level_eq]; exact hc.parent_self_id
+
+example : isValid (5404319552844595200 : CellID) = true := by decide
+
+/-- `Parent` composes: for EVERY 64-bit word, `parent (parent id j) i = parent id i` when `i ≤ j ≤ 30`. -/
+theorem parent_parent (id : CellID) (i j : Nat) (hij : i ≤ j) (hj : j ≤ 30) :
+    parent (parent id j) i = parent id i :=
+  S2Proofs.parent_parent id i j hij hj
+
+example : (3:Nat) ≤ 17 ∧ (17:Nat) ≤ 30 := by decide
+
+/-- `Contains` between valid cells is inclusion of leaf ranges. -/
+theorem contains_iff_range (a b : CellID) (ha : isValid a = true) (hb : isValid b = true) :
+    contains a b = true ↔ rangeMin a ≤ rangeMin b ∧ rangeMax b ≤ rangeMax a := by
+  obtain ⟨k, hca⟩ := (isValid_iff a).mp ha
+  obtain ⟨j, hcb⟩ := (isValid_iff b).mp hb
+  rw [hca.contains_iff_range hcb, UInt64.le_iff_toNat_le, UInt64.le_iff_toNat_le]
+
+example : isValid (5404319552844595200 : CellID) = true ∧ isValid (parent 5404319552844595200 1) = true ∧
+    contains (parent 5404319552844595200 1) 5404319552844595200 = true := by decide
+
+/-- `a` contains `b` iff `a` is the ancestor of `b` at `a`'s level. -/
+theorem contains_iff_parent (a b : CellID) (ha : isValid a = true) (hb : isValid b = true) :
+    contains a b = true ↔ level a ≤ level b ∧ parent b (level a) = a := by
+  obtain ⟨k, hca⟩ := (isValid_iff a).mp ha
+  obtain ⟨j, hcb⟩ := (isValid_iff b).mp hb
+  rw [hca.contains_iff_parent hcb, hca.level_eq, hcb.level_eq]
+
+example : isValid (5404319552844595200 : CellID) = true ∧ isValid (fromFace 2) = true := by decide
+
+theorem contains_refl (a : CellID) (ha : isValid a = true) : contains a a = true := by
+  rw [contains_iff_parent a a ha ha]
+  exact ⟨Nat.le_refl _, parent_level_self a ha⟩
+
+example : isValid (5404319552844595200 : CellID) = true := by decide
+
+theorem contains_trans (a b c : CellID) (ha : isValid a = true) (hb : isValid b = true)
+    (hc : isValid c = true) (hab : contains a b = true) (hbc : contains b c = true) :
+    contains a c = true := by
+  rw [contains_iff_range a b ha hb] at hab
+  rw [contains_iff_range b c hb hc] at hbc
+  rw [contains_iff_range a c ha hc]
+  exact ⟨UInt64.le_trans hab.1 hbc.1, UInt64.le_trans hbc.2 hab.2⟩
+
+example : contains (fromFace 2) (parent 5404319552844595200 1) = true ∧
+    contains (parent 5404319552844595200 1) 5404319552844595200 = true ∧
+    isValid (fromFace 2) = true ∧ isValid (parent 5404319552844595200 1) = true ∧
+    isValid (5404319552844595200 : CellID) = true := by decide
+
+theorem contains_antisymm (a b : CellID) (ha : isValid a = true) (hb : isValid b = true)
+    (hab : contains a b = true) (hba : contains b a = true) : a = b := by
+  rw [contains_iff_parent a b ha hb] at hab
+  rw [contains_iff_parent b a hb ha] at hba
+  have e : level a = level b := Nat.le_antisymm hab.1 hba.1
+  have := hab.2
+  rw [e, parent_level_self b hb] at this
+  exact this.symm
+
+example : isValid (5404319552844595200 : CellID) = true ∧
+    contains (5404319552844595200 : CellID) 5404319552844595200 = true := by decide
+
+/-- Laminarity: two valid cells are nested, or their leaf ranges are disjoint. -/
+theorem nested_or_disjoint (a b : CellID) (ha : isValid a = true) (hb : isValid b = true) :
+    contains a b = true ∨ contains b a = true ∨ rangeMax a < rangeMin b ∨ rangeMax b < rangeMin a := by
+  obtain ⟨k, hca⟩ := (isValid_iff a).mp ha
+  obtain ⟨j, hcb⟩ := (isValid_iff b).mp hb
+  simp only [UInt64.lt_iff_toNat_lt]
+  exact hca.nested_or_disjoint hcb
+
+example : isValid (5404319552844595200 : CellID) = true ∧ isValid (fromFace 3) = true ∧
+    rangeMax (5404319552844595200 : CellID) < rangeMin (fromFace 3) := by decide
+
+/-- `RangeMin`/`RangeMax` of a valid cell are valid leaf cells inside it, and bracket its id. -/
+theorem range_ends_spec (id : CellID) (h : isValid id = true) :
+    isValid (rangeMin id) = true ∧ isLeaf (rangeMin id) = true ∧ level (rangeMin id) = 30 ∧
+    isValid (rangeMax id) = true ∧ isLeaf (rangeMax id) = true ∧ level (rangeMax id) = 30 ∧
+    contains id (rangeMin id) = true ∧ contains id (rangeMax id) = true ∧
+    rangeMin id ≤ id ∧ id ≤ rangeMax id := by
+  obtain ⟨k, hc⟩ := (isValid_iff id).mp h
+  have h1 := hc.rangeMin_isCell
+  have h2 := hc.rangeMax_isCell
+  have hle := hc.rangeMin_le
+  have hmm : (rangeMin id).toNat ≤ (rangeMax id).toNat := Nat.le_trans hle.1 hle.2
+  refine ⟨(isValid_iff _).mpr ⟨30, h1⟩, by rw [h1.isLeaf_eq]; rfl, h1.level_eq,
+    (isValid_iff _).mpr ⟨30, h2⟩, by rw [h2.isLeaf_eq]; rfl, h2.level_eq, ?_, ?_, ?_, ?_⟩
+  · rw [contains_iff]; exact ⟨Nat.le_refl _, hmm⟩
+  · rw [contains_iff]; exact ⟨hmm, Nat.le_refl _⟩
+  · rw [UInt64.le_iff_toNat_le]; exact hle.1
+  · rw [UInt64.le_iff_toNat_le]; exact hle.2
+
+example : isValid (5404319552844595200 : CellID) = true := by decide
+
+/-- `IsLeaf` ⇔ level 30 (for valid ids). -/
+theorem isLeaf_iff_level (id : CellID) (h : isValid id = true) : isLeaf id = true ↔ level id = 30 := by
+  obtain ⟨k, hc⟩ := (isValid_iff id).mp h
+  rw [hc.isLeaf_eq, hc.level_eq]; simp
+
+example : isValid (rangeMin 5404319552844595200) = true ∧ isLeaf (rangeMin 5404319552844595200) = true ∧
+    isLeaf (5404319552844595200 : CellID) = false := by decide
+
+/-- Leaf count: the leaf ids in the range are the `4^(30−level)` odd numbers between the two ends. -/
+theorem range_size (id : CellID) (h : isValid id = true) :
+    (rangeMax id).toNat - (rangeMin id).toNat = 2 * (4^(30 - level id) - 1) ∧
+      (rangeMin id).toNat % 2 = 1 := by
+  obtain ⟨k, hc⟩ := (isValid_iff id).mp h
+  rw [hc.level_eq]
+  refine ⟨hc.range_size, ?_⟩
+  have := hc.rangeMin_isCell.low
+  simpa using this
+
+example : isValid (5404319552844595200 : CellID) = true := by decide
+
+/-- A valid leaf is one of the leaves of `id` iff its ancestor at `id`'s level is `id`. -/
+theorem contains_leaf_iff (id l : CellID) (h : isValid id = true) (hl : isValid l = true)
+    (hleaf : isLeaf l = true) :
+    (rangeMin id ≤ l ∧ l ≤ rangeMax id) ↔ parent l (level id) = id := by
+  have := contains_iff_parent id l h hl
+  unfold contains at this
+  rw [Bool.and_eq_true, decide_eq_true_eq, decide_eq_true_eq] at this
+  rw [this]
+  obtain ⟨k, hc⟩ := (isValid_iff id).mp h
+  have : level id ≤ level l := by
+    rw [(isLeaf_iff_level l hl).mp hleaf, hc.level_eq]; exact hc.k_le
+  simp [this]
+
+example : isValid (5404319552844595200 : CellID) = true ∧ isValid (5404319552844595201 : CellID) = true ∧
+    isLeaf (5404319552844595201 : CellID) = true := by decide
+
+theorem intersects_comm (a b : CellID) : intersects a b = intersects b a := by
+  rw [Bool.eq_iff_iff, intersects_iff, intersects_iff]
+  exact And.comm
+
+/-- Valid cells intersect iff one contains the other. -/
+theorem intersects_iff_contains (a b : CellID) (ha : isValid a = true) (hb : isValid b = true) :
+    intersects a b = true ↔ contains a b = true ∨ contains b a = true := by
+  obtain ⟨k, hca⟩ := (isValid_iff a).mp ha
+  obtain ⟨j, hcb⟩ := (isValid_iff b).mp hb
+  have hn := hca.nested_or_disjoint hcb
+  have la := hca.rangeMin_le
+  have lb := hcb.rangeMin_le
+  rw [intersects_iff]
+  constructor
+  · intro hi
+    rcases hn with h | h | h | h
+    · exact Or.inl h
+    · exact Or.inr h
+    · omega
+    · omega
+  · rintro (h | h)
+    · rw [contains_iff] at h; omega
+    · rw [contains_iff] at h; omega
+
+example : isValid (5404319552844595200 : CellID) = true ∧ isValid (fromFace 2) = true ∧
+    intersects (5404319552844595200 : CellID) (fromFace 2) = true := by decide
+
+/-- Valid cells intersect iff they share a leaf cell. -/
+theorem intersects_iff_common_leaf (a b : CellID) (ha : isValid a = true) (hb : isValid b = true) :
+    intersects a b = true ↔
+      ∃ l, isValid l = true ∧ isLeaf l = true ∧ contains a l = true ∧ contains b l = true := by
+  rw [intersects_iff_contains a b ha hb]
+  constructor
+  · rintro (h | h)
+    · obtain ⟨v, lf, _, _, _, _, c, _⟩ := range_ends_spec b hb
+      exact ⟨rangeMin b, v, lf, contains_trans a b _ ha hb v h c, c⟩
+    · obtain ⟨v, lf, _, _, _, _, c, _⟩ := range_ends_spec a ha
+      exact ⟨rangeMin a, v, lf, c, contains_trans b a _ hb ha v h c⟩
+  · rintro ⟨l, hv, _, ca, cb⟩
+    obtain ⟨k, hca⟩ := (isValid_iff a).mp ha
+    obtain ⟨j, hcb⟩ := (isValid_iff b).mp hb
+    rcases hca.nested_or_disjoint hcb with h | h | h | h
+    · exact Or.inl h
+    · exact Or.inr h
+    · rw [contains_iff] at ca cb; omega
+    · rw [contains_iff] at ca cb; omega
+
+example : isValid (5404319552844595200 : CellID) = true ∧ isValid (fromFace 2) = true := by decide
+
+-- (`msbPos x` is by definition `Nat.log2 x.toNat`, the model of `findMSBSetNonZero64`.)
+
+/-- `CommonAncestorLevel` fails exactly for cells on different faces. -/
+theorem commonAncestorLevel_none_iff (a b : CellID) (ha : isValid a = true) (hb : isValid b = true) :
+    commonAncestorLevel a b = none ↔ face a ≠ face b := by
+  obtain ⟨k, hca⟩ := (isValid_iff a).mp ha
+  obtain ⟨j, hcb⟩ := (isValid_iff b).mp hb
+  exact hca.cal_none_iff hcb
+
+example : isValid (5404319552844595200 : CellID) = true ∧ isValid (fromFace 3) = true ∧
+    commonAncestorLevel (5404319552844595200 : CellID) (fromFace 3) = none := by decide
+
+/-- `CommonAncestorLevel a b = some m`: the levels at which `a` and `b` have a common ancestor are
+    exactly `0..m` (so `m` is the level of the deepest common ancestor). -/
+theorem commonAncestorLevel_spec (a b : CellID) (ha : isValid a = true) (hb : isValid b = true)
+    (l : Nat) :
+    (l ≤ level a ∧ l ≤ level b ∧ parent a l = parent b l) ↔
+      ∃ m, commonAncestorLevel a b = some m ∧ l ≤ m := by
+  obtain ⟨k, hca⟩ := (isValid_iff a).mp ha
+  obtain ⟨j, hcb⟩ := (isValid_iff b).mp hb
+  rw [hca.level_eq, hcb.level_eq]
+  exact hca.cal_some_iff hcb l
+
+example : isValid (5404319552844595200 : CellID) = true ∧ isValid (child (fromFace 2) 1) = true ∧
+    commonAncestorLevel (5404319552844595200 : CellID) (child (child (fromFace 2) 1) 3) = some 1 := by decide
+
+/-! ## Group 3 — children -/
+
+/-- A child of a valid non-leaf cell is a valid cell one level down on the same face, and the cell
+    is its parent. -/
+theorem child_spec (id : CellID) (t : Nat) (h : isValid id = true) (hl : level id < 30) (ht : t < 4) :
+    isValid (child id t) = true ∧ level (child id t) = level id + 1 ∧ face (child id t) = face id ∧
+      parent (child id t) (level id) = id ∧ immediateParent (child id t) = id ∧
+      contains id (child id t) = true := by
+  obtain ⟨k, hc⟩ := (isValid_iff id).mp h
+  rw [hc.level_eq] at hl ⊢
+  have hch := hc.child_isCell hl ht
+  exact ⟨(isValid_iff _).mpr ⟨k+1, hch⟩, hch.level_eq, hc.child_face hl ht, hc.parent_child_id hl ht,
+    hc.immediateParent_child hl ht, hc.contains_child hl ht⟩
+
+example : isValid (5404319552844595200 : CellID) = true ∧ level (5404319552844595200 : CellID) < 30 := by
+  decide
+
+/-- `immediateParent` is the ancestor one level up; a cell is the `childPosition`-th child of it. -/
+theorem immediateParent_spec (c : CellID) (h : isValid c = true) (hl : 0 < level c) :
+    immediateParent c = parent c (level c - 1) ∧
+      child (immediateParent c) (childPosition c (level c)) = c := by
+  obtain ⟨k, hc⟩ := (isValid_iff c).mp h
+  rw [hc.level_eq] at hl ⊢
+  exact ⟨hc.immediateParent_eq hl, hc.child_childPosition hl⟩
+
+example : isValid (5404319552844595200 : CellID) = true ∧ 0 < level (5404319552844595200 : CellID) := by
+  decide
+
+theorem childPosition_child (id : CellID) (t : Nat) (h : isValid id = true) (hl : level id < 30)
+    (ht : t < 4) : childPosition (child id t) (level id + 1) = t := by
+  obtain ⟨k, hc⟩ := (isValid_iff id).mp h
+  rw [hc.level_eq] at hl ⊢
+  exact hc.childPosition_child hl ht
+
+example : childPosition (child 5404319552844595200 2) 3 = 2 := by decide
+
+/-- Children are consecutive on the curve. -/
+theorem next_child (id : CellID) (t : Nat) (h : isValid id = true) (hl : level id < 30) (ht : t < 3) :
+    next (child id t) = child id (t+1) := by
+  obtain ⟨k, hc⟩ := (isValid_iff id).mp h
+  rw [hc.level_eq] at hl
+  exact hc.next_child hl ht
+
+example : next (child 5404319552844595200 1) = child 5404319552844595200 2 := by decide
+
+/-- The leaf ranges of the four children partition the leaf range of the cell, in curve order
+    (consecutive leaf ids differ by 2). -/
+theorem child_ranges_partition (id : CellID) (h : isValid id = true) (hl : level id < 30) :
+    rangeMin (child id 0) = rangeMin id ∧ rangeMax (child id 3) = rangeMax id ∧
+      ∀ t, t < 3 → (rangeMax (child id t)).toNat + 2 = (rangeMin (child id (t+1))).toNat := by
+  obtain ⟨k, hc⟩ := (isValid_iff id).mp h
+  rw [hc.level_eq] at hl
+  exact hc.child_ranges hl
+
+example : isValid (5404319552844595200 : CellID) = true ∧ level (5404319552844595200 : CellID) < 30 := by
+  decide
+
+/-- Distinct children are distinct cells with disjoint leaf ranges. -/
+theorem children_disjoint (id : CellID) (t u : Nat) (h : isValid id = true) (hl : level id < 30)
+    (htu : t < u) (hu : u < 4) :
+    child id t ≠ child id u ∧ rangeMax (child id t) < rangeMin (child id u) ∧
+      contains (child id t) (child id u) = false ∧ contains (child id u) (child id t) = false ∧
+      intersects (child id t) (child id u) = false := by
+  obtain ⟨k, hc⟩ := (isValid_iff id).mp h
+  rw [hc.level_eq] at hl
+  have hd := hc.child_disjoint hl htu hu
+  have ct := hc.child_isCell hl (show t < 4 by omega)
+  have cu := hc.child_isCell hl hu
+  have lt := ct.rangeMin_le
+  have lu := cu.rangeMin_le
+  refine ⟨?_, UInt64.lt_iff_toNat_lt.mpr hd, ?_, ?_, ?_⟩
+  · intro he; have := hc.child_inj hl (by omega) hu he; omega
+  · rw [← Bool.not_eq_true, contains_iff]; omega
+  · rw [← Bool.not_eq_true, contains_iff]; omega
+  · rw [← Bool.not_eq_true, intersects_iff]; omega
+
+example : isValid (5404319552844595200 : CellID) = true ∧ level (5404319552844595200 : CellID) < 30 ∧
+    (1:Nat) < 3 ∧ (3:Nat) < 4 := by decide
+
+/-- Every valid cell strictly inside `id` lies in exactly one child of `id`. -/
+theorem unique_child_contains (id c : CellID) (h : isValid id = true) (hc : isValid c = true)
+    (hin : contains id c = true) (hne : c ≠ id) :
+    level id < 30 ∧ ∃! t, t < 4 ∧ contains (child id t) c = true := by
+  obtain ⟨k, hx⟩ := (isValid_iff id).mp h
+  obtain ⟨j, hy⟩ := (isValid_iff c).mp hc
+  obtain ⟨hk, t, ht, hu⟩ := hx.unique_child hy hin hne
+  rw [hx.level_eq]
+  exact ⟨hk, t, ht, hu⟩
+
+example : isValid (fromFace 2) = true ∧ isValid (5404319552844595200 : CellID) = true ∧
+    contains (fromFace 2) 5404319552844595200 = true ∧ (5404319552844595200 : CellID) ≠ fromFace 2 := by
+  decide
+
+/-- `Children()` lists the four children in order; `ChildBegin` is the first one (all words). -/
+theorem childrenList_eq_id (id : CellID) :
+    childrenList id = [child id 0, child id 1, child id 2, child id 3] ∧ childBegin id = child id 0 :=
+  ⟨rfl, rfl⟩
+
+/-- `ChildEnd` is the successor of the last child. -/
+theorem childEnd_spec (id : CellID) (h : isValid id = true) (hl : level id < 30) :
+    childEnd id = next (child id 3) ∧
+      (childEnd id).toNat
+        = (next id).toNat - 2^(60 - 2 * level id) + 2^(58 - 2 * level id) := by
+  obtain ⟨k, hc⟩ := (isValid_iff id).mp h
+  rw [hc.level_eq] at hl ⊢
+  exact hc.childEnd_eq hl
+
+example : isValid (5404319552844595200 : CellID) = true ∧ level (5404319552844595200 : CellID) < 30 := by
+  decide
+
+/-- `ChildBeginAtLevel(j)` is the valid level-`j` cell with the same `RangeMin`. -/
+theorem childBeginAtLevel_spec (id : CellID) (j : Nat) (h : isValid id = true) (hkj : level id ≤ j)
+    (hj : j ≤ 30) :
+    isValid (childBeginAtLevel id j) = true ∧ level (childBeginAtLevel id j) = j ∧
+      rangeMin (childBeginAtLevel id j) = rangeMin id ∧
+      ∀ c, isValid c = true → level c = j → rangeMin c = rangeMin id → c = childBeginAtLevel id j := by
+  obtain ⟨k, hc⟩ := (isValid_iff id).mp h
+  rw [hc.level_eq] at hkj
+  have hb := hc.childBeginAtLevel_isCell j hkj hj
+  have hr := hc.childBeginAtLevel_rangeMin j hkj hj
+  refine ⟨(isValid_iff _).mpr ⟨j, hb⟩, hb.level_eq, hr, ?_⟩
+  intro c hv hlc hrc
+  obtain ⟨j', hy⟩ := (isValid_iff c).mp hv
+  rw [hy.level_eq] at hlc; subst hlc
+  exact hy.eq_of_rangeMin_eq hb (by rw [hrc, hr])
+
+example : isValid (5404319552844595200 : CellID) = true ∧ level (5404319552844595200 : CellID) ≤ 7 ∧
+    (7:Nat) ≤ 30 := by decide
+
+/-- `ChildEndAtLevel(j).Prev()` is the valid level-`j` cell with the same `RangeMax`.
+    (`ChildEndAtLevel` itself need not be valid: for the last cell of face 5 it is `≥ 6·2^61`.) -/
+theorem childEndAtLevel_spec (id : CellID) (j : Nat) (h : isValid id = true) (hkj : level id ≤ j)
+    (hj : j ≤ 30) :
+    isValid (prev (childEndAtLevel id j)) = true ∧ level (prev (childEndAtLevel id j)) = j ∧
+      rangeMax (prev (childEndAtLevel id j)) = rangeMax id ∧
+      ∀ c, isValid c = true → level c = j → rangeMax c = rangeMax id →
+        c = prev (childEndAtLevel id j) := by
+  obtain ⟨k, hc⟩ := (isValid_iff id).mp h
+  rw [hc.level_eq] at hkj
+  obtain ⟨hb, hr⟩ := hc.prev_childEndAtLevel j hkj hj
+  refine ⟨(isValid_iff _).mpr ⟨j, hb⟩, hb.level_eq, hr, ?_⟩
+  intro c hv hlc hrc
+  obtain ⟨j', hy⟩ := (isValid_iff c).mp hv
+  rw [hy.level_eq] at hlc; subst hlc
+  exact hy.eq_of_rangeMax_eq hb (by rw [hrc, hr])
+
+example : isValid (5404319552844595200 : CellID) = true ∧ level (5404319552844595200 : CellID) ≤ 7 ∧
+    (7:Nat) ≤ 30 := by decide
+example : isValid (childEndAtLevel (rangeMax (fromFace 5)) 30) = false := by decide
+
+/-- At the next level the `…AtLevel` variants agree with `ChildBegin` / `ChildEnd`. -/
+theorem childAtLevel_succ (id : CellID) (h : isValid id = true) (hl : level id < 30) :
+    childBeginAtLevel id (level id + 1) = childBegin id ∧
+      childEndAtLevel id (level id + 1) = childEnd id := by
+  obtain ⟨k, hc⟩ := (isValid_iff id).mp h
+  rw [hc.level_eq] at hl ⊢
+  exact hc.childAtLevel_succ hl
+
+example : isValid (5404319552844595200 : CellID) = true ∧ level (5404319552844595200 : CellID) < 30 := by
+  decide
+
+/-- The level-`j` descendants of `id` are exactly the level-`j` cells in
+    `[ChildBeginAtLevel(j), ChildEndAtLevel(j))`; there are `4^(j−level id)` of them (step `2^(61−2j)`). -/
+theorem contains_iff_child_range (id c : CellID) (h : isValid id = true) (hc : isValid c = true)
+    (hkj : level id ≤ level c) :
+    (contains id c = true ↔
+      childBeginAtLevel id (level c) ≤ c ∧ c < childEndAtLevel id (level c)) ∧
+    (childEndAtLevel id (level c)).toNat - (childBeginAtLevel id (level c)).toNat
+      = 4^(level c - level id) * 2^(61 - 2 * level c) := by
+  obtain ⟨k, hx⟩ := (isValid_iff id).mp h
+  obtain ⟨j, hy⟩ := (isValid_iff c).mp hc
+  rw [hx.level_eq, hy.level_eq] at *
+  rw [UInt64.le_iff_toNat_le, UInt64.lt_iff_toNat_lt]
+  exact ⟨hx.contains_iff_childRange hy hkj, hx.childRange_size j hkj hy.k_le⟩
+
+example : isValid (fromFace 2) = true ∧ isValid (5404319552844595200 : CellID) = true ∧
+    level (fromFace 2) ≤ level (5404319552844595200 : CellID) := by decide
+
+/-! ## Group 4 — steps along the curve
+
+  Notation in the comments: `k = level id`, `S = 2^(61−2k)` (id distance between consecutive
+  level-`k` cells), `N = 6·4^k` (number of level-`k` cells), `D = distanceFromBegin id`. -/
+
+/-- `Next` and `Prev` are mutually inverse on EVERY valid cell (also across the ends of the id
+    range, where the intermediate word is not a valid cell). -/
+theorem prev_next (id : CellID) (h : isValid id = true) :
+    prev (next id) = id ∧ next (prev id) = id := by
+  obtain ⟨k, hc⟩ := (isValid_iff id).mp h
+  exact ⟨hc.prev_next, hc.next_prev⟩
+
+example : isValid (rangeMax (fromFace 5)) = true ∧ isValid (next (rangeMax (fromFace 5))) = false ∧
+    isValid (fromFace 0) = true ∧ isValid (prev (fromFace 0)) = false := by decide
+
+/-- `Next` adds `S`; the result is a valid cell (of the same level) iff `id` is not the last
+    level-`k` cell. -/
+theorem next_spec (id : CellID) (h : isValid id = true) :
+    (next id).toNat = id.toNat + 2^(61 - 2 * level id) ∧
+    (isValid (next id) = true ↔ id.toNat + 2^(61 - 2 * level id) < 6 * 2^61) ∧
+    (isValid (next id) = true → level (next id) = level id) := by
+  obtain ⟨k, hc⟩ := (isValid_iff id).mp h
+  rw [hc.level_eq, isValid_iff]
+  refine ⟨hc.next_low.1, hc.next_isCell_iff, ?_⟩
+  intro hv
+  exact (hc.next_isCell (hc.next_isCell_iff.mp hv)).level_eq
+
+example : isValid (5404319552844595200 : CellID) = true ∧ isValid (next 5404319552844595200) = true := by
+  decide
+
+/-- `Prev` subtracts `S`; the result is a valid cell (of the same level) iff `id` is not the first
+    level-`k` cell. -/
+theorem prev_spec (id : CellID) (h : isValid id = true) :
+    (isValid (prev id) = true ↔ 2^(61 - 2 * level id) ≤ id.toNat) ∧
+    (isValid (prev id) = true →
+      level (prev id) = level id ∧ (prev id).toNat = id.toNat - 2^(61 - 2 * level id)) := by
+  obtain ⟨k, hc⟩ := (isValid_iff id).mp h
+  rw [hc.level_eq, isValid_iff]
+  refine ⟨hc.prev_isCell_iff, ?_⟩
+  intro hv
+  obtain ⟨hp, e⟩ := hc.prev_isCell (hc.prev_isCell_iff.mp hv)
+  exact ⟨hp.level_eq, e⟩
+
+example : isValid (5404319552844595200 : CellID) = true ∧ isValid (prev 5404319552844595200) = true := by
+  decide
+
+/-- `distanceFromBegin` is the index `id / S` of the cell among the level-`k` cells; in canonical
+    form it is `face·4^k + c`; it lies in `[0, N)`. -/
+theorem distanceFromBegin_spec (id : CellID) (h : isValid id = true) :
+    distanceFromBegin id = ((id.toNat / 2^(61 - 2 * level id) : Nat) : Int) ∧
+    0 ≤ distanceFromBegin id ∧ distanceFromBegin id < ((6 * 4^(level id) : Nat) : Int) ∧
+    ∀ f k c, f < 6 → k ≤ 30 → c < 4^k → id.toNat = f * 2^61 + (2*c+1) * 2^(60 - 2*k) →
+      distanceFromBegin id = ((f * 4^k + c : Nat) : Int) := by
+  obtain ⟨k, hc⟩ := (isValid_iff id).mp h
+  rw [hc.level_eq, hc.distanceFromBegin_eq]
+  refine ⟨rfl, Int.natCast_nonneg _, by exact_mod_cast hc.index_form.2, ?_⟩
+  intro f k' c hf hk' hcc hx
+  have hc' := isCell_of_canonical hf hk' hcc hx
+  have := hc.unique hc'
+  subst this
+  rw [distance_canonical hf hk' hcc hx]
+
+example : isValid (5404319552844595200 : CellID) = true ∧
+    distanceFromBegin (5404319552844595200 : CellID) = 2 * 4^2 + 5 := by decide
+
+/-- `AdvanceWrap(s)` for EVERY integer `s`: the result is the valid level-`k` cell with index
+    `(D + s) mod N` (mathematical, non-negative remainder). -/
+theorem advanceWrap_spec (id : CellID) (s : Int) (h : isValid id = true) :
+    (advanceWrap id s).toNat
+      = ((distanceFromBegin id + s) % ((6 * 4^(level id) : Nat) : Int)).toNat * 2^(61 - 2 * level id)
+        + 2^(60 - 2 * level id) ∧
+    isValid (advanceWrap id s) = true ∧ level (advanceWrap id s) = level id ∧
+    distanceFromBegin (advanceWrap id s)
+      = (distanceFromBegin id + s) % ((6 * 4^(level id) : Nat) : Int) := by
+  obtain ⟨k, hc⟩ := (isValid_iff id).mp h
+  obtain ⟨hw, hi⟩ := hc.advanceWrap_isCell s
+  rw [hc.level_eq, hc.distanceFromBegin_eq, hw.distanceFromBegin_eq]
+  exact ⟨hc.advanceWrap_toNat s, (isValid_iff _).mpr ⟨k, hw⟩, hw.level_eq, hi⟩
+
+example : isValid (5404319552844595200 : CellID) = true ∧
+    advanceWrap (5404319552844595200 : CellID) (-1000) ≠ 5404319552844595200 := by decide
+
+/-- `AdvanceWrap` by 0, +1, −1. -/
+theorem advanceWrap_small (id : CellID) (h : isValid id = true) :
+    advanceWrap id 0 = id ∧ advanceWrap id 1 = nextWrap id ∧ advanceWrap id (-1) = prevWrap id := by
+  obtain ⟨k, hc⟩ := (isValid_iff id).mp h
+  exact ⟨rfl, hc.advanceWrap_one.1, hc.advanceWrap_one.2⟩
+
+example : isValid (rangeMax (fromFace 5)) = true ∧
+    advanceWrap (rangeMax (fromFace 5)) 1 = rangeMin (fromFace 0) := by decide
+
+/-- `AdvanceWrap` is an action of the integers … -/
+theorem advanceWrap_add (id : CellID) (s t : Int) (h : isValid id = true) :
+    advanceWrap (advanceWrap id s) t = advanceWrap id (s + t) := by
+  obtain ⟨k, hc⟩ := (isValid_iff id).mp h
+  exact hc.advanceWrap_add s t
+
+example : isValid (5404319552844595200 : CellID) = true ∧
+    advanceWrap (advanceWrap (5404319552844595200 : CellID) 70) (-100)
+      = advanceWrap 5404319552844595200 (-30) := by decide
+
+/-- … with period `N`. -/
+theorem advanceWrap_period (id : CellID) (s : Int) (h : isValid id = true) :
+    advanceWrap id (s + ((6 * 4^(level id) : Nat) : Int)) = advanceWrap id s := by
+  obtain ⟨k, hc⟩ := (isValid_iff id).mp h
+  rw [hc.level_eq]
+  exact hc.advanceWrap_period s
+
+example : isValid (5404319552844595200 : CellID) = true ∧
+    advanceWrap (5404319552844595200 : CellID) (7 + 96) = advanceWrap 5404319552844595200 7 := by decide
+
+/-- `NextWrap` / `PrevWrap`: valid, same level, mutually inverse; `NextWrap` is `Next` except on the
+    last level-`k` cell, where it gives the first one (`S/2`). -/
+theorem wrap_spec (id : CellID) (h : isValid id = true) :
+    isValid (nextWrap id) = true ∧ level (nextWrap id) = level id ∧
+    isValid (prevWrap id) = true ∧ level (prevWrap id) = level id ∧
+    prevWrap (nextWrap id) = id ∧ nextWrap (prevWrap id) = id ∧
+    (id.toNat + 2^(61 - 2 * level id) < 6 * 2^61 → nextWrap id = next id) ∧
+    (¬ id.toNat + 2^(61 - 2 * level id) < 6 * 2^61 → (nextWrap id).toNat = 2^(60 - 2 * level id)) := by
+  obtain ⟨k, hc⟩ := (isValid_iff id).mp h
+  obtain ⟨e1, e2⟩ := hc.advanceWrap_one
+  have hn := (hc.advanceWrap_isCell 1).1
+  have hp := (hc.advanceWrap_isCell (-1)).1
+  rw [e1] at hn
+  rw [e2] at hp
+  rw [hc.level_eq]
+  refine ⟨(isValid_iff _).mpr ⟨k, hn⟩, hn.level_eq, (isValid_iff _).mpr ⟨k, hp⟩, hp.level_eq,
+    ?_, ?_, ?_, ?_⟩
+  · rw [← hn.advanceWrap_one.2, ← e1, hc.advanceWrap_add]; rfl
+  · rw [← hp.advanceWrap_one.1, ← e2, hc.advanceWrap_add]; rfl
+  · intro hlt
+    apply UInt64.toNat_inj.mp
+    rw [hc.nextWrap_toNat, hc.next_low.1]; exact Nat.mod_eq_of_lt hlt
+  · intro hge
+    rw [hc.nextWrap_toNat]
+    obtain ⟨hk, hf, hlow⟩ := hc
+    interval_cases k <;> cell_omega
+
+example : isValid (rangeMax (fromFace 5)) = true ∧
+    ¬ (rangeMax (fromFace 5)).toNat + 2^(61 - 2 * level (rangeMax (fromFace 5))) < 6 * 2^61 := by decide
+
+/-- `Advance(s)` for EVERY integer `s`: the index is clamped to `[0, N]`.  If `D + s < N` the
+    result is a valid cell of the same level; otherwise it is the (invalid) end word
+    `6·2^61 + S/2` (`End(level)` of the Go code). -/
+theorem advance_spec (id : CellID) (s : Int) (h : isValid id = true) :
+    (advance id s).toNat
+      = (max 0 (min (((6 * 4^(level id) : Nat) : Int)) (distanceFromBegin id + s))).toNat
+          * 2^(61 - 2 * level id) + 2^(60 - 2 * level id) ∧
+    (isValid (advance id s) = true ↔ distanceFromBegin id + s < ((6 * 4^(level id) : Nat) : Int)) ∧
+    (isValid (advance id s) = true → level (advance id s) = level id) ∧
+    (((6 * 4^(level id) : Nat) : Int) ≤ distanceFromBegin id + s →
+      (advance id s).toNat = 6 * 2^61 + 2^(60 - 2 * level id)) := by
+  obtain ⟨k, hc⟩ := (isValid_iff id).mp h
+  obtain ⟨c1, c2⟩ := hc.advance_cases s
+  rw [hc.level_eq, hc.distanceFromBegin_eq]
+  have hiff : isValid (advance id s) = true ↔
+      ((id.toNat / 2^(61 - 2*k) : Nat) : Int) + s < ((6 * 4^k : Nat) : Int) := by
+    constructor
+    · intro hv
+      obtain ⟨j, hj⟩ := (isValid_iff _).mp hv
+      by_contra hge
+      have h1 := c2 (Int.not_lt.mp hge)
+      have h2 := hj.face_lt
+      rw [h1] at h2
+      exact Nat.lt_irrefl _ (Nat.lt_of_le_of_lt (Nat.le_add_right _ _) h2)
+    · intro hlt
+      exact (isValid_iff _).mpr ⟨k, c1 hlt⟩
+  refine ⟨hc.advance_toNat s, hiff, ?_, c2⟩
+  intro hv
+  exact (c1 (hiff.mp hv)).level_eq
+
+example : isValid (5404319552844595200 : CellID) = true ∧
+    isValid (advance (5404319552844595200 : CellID) 58) = true ∧
+    isValid (advance (5404319552844595200 : CellID) 59) = false ∧
+    advance (5404319552844595200 : CellID) (-1000) = parent (rangeMin (fromFace 0)) 2 := by decide
+
+/-- `Advance` by ±1: `Advance(1) = Next` always; `Advance(−1) = Prev` except on the first cell of the
+    level, where `Advance(−1)` stays put. -/
+theorem advance_small (id : CellID) (h : isValid id = true) :
+    advance id 0 = id ∧ advance id 1 = next id ∧
+    (2^(61 - 2 * level id) ≤ id.toNat → advance id (-1) = prev id) ∧
+    (id.toNat < 2^(61 - 2 * level id) → advance id (-1) = id) := by
+  obtain ⟨k, hc⟩ := (isValid_iff id).mp h
+  rw [hc.level_eq]
+  exact ⟨rfl, hc.advance_one.1, hc.advance_one.2.1, hc.advance_one.2.2⟩
+
+example : isValid (fromFace 0) = true ∧ (fromFace 0).toNat < 2^(61 - 2 * level (fromFace 0)) ∧
+    isValid (5404319552844595200 : CellID) = true ∧
+    2^(61 - 2 * level (5404319552844595200 : CellID)) ≤ (5404319552844595200 : CellID).toNat := by decide
 
 end S2Proofs.C01
